@@ -34,7 +34,7 @@ META = {
     "technique": "Coq proof (invariant of a transition system + sound executable trace checker) + trace validation of real runs (vm_compute) + independent oracle",
 }
 
-IMPORTS = ["Base.Num", "Model.Evaluate", "Model.AlgSkeleton", "Harness.H01"]
+IMPORTS = ["Base.Num", "Model.Evaluate", "Model.AlgSkeleton", "Model.AlgSteps", "Harness.H01"]
 NWORKERS = max(2, min(8, (os.cpu_count() or 4) // 2))
 
 
@@ -199,22 +199,42 @@ def run(ctx):
     phase["function_oracles_s"] = round(time.time() - t0, 1)
     t0 = time.time()
     # trace validation in Coq
-    bad = C.run_coq_cases(ctx, "traces", IMPORTS, "c01case", "c01_check", lits, shard=ctx.scale(8, 12), timeout=1500)
+    bad = C.run_coq_cases(ctx, "traces", IMPORTS, "c01case", "c01_check_both", lits, shard=ctx.scale(8, 12), timeout=1500)
+    bad_flow = []
     if bad is not None:
-        detail = ""
+        detail = detail_flow = ""
+        bad_skel = []
         if bad:
-            detail = "rejected traces: " + "; ".join(repr(lit_cfg[i]) for i in bad[:4])
-            # model first: is some exposed snapshot of a rejected trace not Good in the model?
-            res, _ = C.coq_eval(ctx, "search", IMPORTS, ["c01_exposed_good (%s)" % lits[i] for i in bad[:3]])
-            detail += " | model: all exposed snapshots Good? %r" % (res,)
+            # which of the two checks failed, and (model first) is some exposed snapshot of the trace not Good in the model?
+            terms = []
+            for i in bad[:12]:
+                terms += ["c01_check (%s)" % lits[i], "c01_flow_check (%s)" % lits[i], "c01_exposed_good (%s)" % lits[i]]
+            res, _ = C.coq_eval(ctx, "search", IMPORTS, terms)
+            verdicts = []
+            for j, i in enumerate(bad[:12]):
+                r3 = res[3 * j:3 * j + 3] if res else ["?", "?", "?"]
+                sk, fl, gd = [("true" in x.split(":")[0]) if x != "?" else None for x in r3]
+                if sk is not True:
+                    bad_skel.append(i)
+                if fl is not True:
+                    bad_flow.append(i)
+                verdicts.append("%s seed %s: skeleton=%s flow=%s all-exposed-Good-in-model=%s" % (lit_cfg[i]["alg"], lit_cfg[i]["seed"], sk, fl, gd))
+            if len(bad) > 12:
+                bad_skel += bad[12:]
+                bad_flow += bad[12:]
+            detail = "rejected traces: " + "; ".join(repr(lit_cfg[i]) for i in bad_skel[:4]) + " | " + " | ".join(verdicts[:6])
+            detail_flow = ("logged steps that do not have the data flow of the algorithm's step model (Model/AlgSteps.v iter_rules): " +
+                           "; ".join(repr(lit_cfg[i]) for i in bad_flow[:4]) + " | " + " | ".join(verdicts[:6]))
             for i in bad[:3]:
                 ctx.sample({"rejected_trace_of": lit_cfg[i]})
-        ctx.obligation("correspondence:traces-accepted-by-skeleton(%d traces)" % len(lits), "correspondence", not bad, detail)
+        ctx.obligation("correspondence:traces-accepted-by-skeleton(%d traces)" % len(lits), "correspondence", not bad_skel, detail)
+        ctx.obligation("correspondence:steps-follow-algorithm-model(%d traces)" % len(lits), "correspondence", not bad_flow, detail_flow)
     phase["coq_traces_s"] = round(time.time() - t0, 1)
     ctx.coverage.update({
         "phase_seconds": phase,
         "traces_validated_against_impl": len(lits),
         "traces_rejected_by_model": len(bad or []),
+        "traces_not_following_algorithm_model": len(bad_flow),
         "traces_oracle_only": dict(skipped),
         "step_boundaries_checked": steps,
         "exposed_solutions_checked_by_oracle": exposed,
